@@ -7,6 +7,7 @@ package httpserver
 
 import (
 	"fmt"
+	"strings"
 	"testing"
 
 	"github.com/megaease/easegress/pkg/zzverif/mc"
@@ -79,6 +80,32 @@ func c12Configs() []c12Config {
 		r = cp()
 		r[len(r)-1].Entries[len(r[len(r)-1].Entries)-1].IPFilter = c12Filter
 		cs = append(cs, c12Config{name: n + "/ip-lastpath", rules: r, hasIP: true})
+	}
+	// systematic family: every rule set with 2 entries (in one rule or in two rules) from a small entry
+	// menu x host matchers, without ip filters (header-conditioned and unconditional entries in any arrangement)
+	x1 := []vHdr{{Key: "X", Values: []string{"1"}}}
+	menu := []vEntry{
+		{Path: "/p", Backend: "p1"},
+		{Path: "/p", Headers: x1, Backend: "p2"},
+		{Path: "/p", Methods: []string{"PUT"}, Backend: "p3"},
+		{Prefix: "/", Rewrite: "/r", Backend: "p1"},
+		{Path: "/q", Headers: x1, Methods: []string{"PUT"}, Backend: "p2"},
+	}
+	hosts := []vRule{{}, {Host: "a"}, {HostRegexp: "^a"}}
+	for i, e1 := range menu {
+		for j, e2 := range menu {
+			for hi, h1 := range hosts {
+				r := h1
+				r.Entries = []vEntry{e1, e2}
+				cs = append(cs, c12Config{name: fmt.Sprintf("sys/one-rule-h%d-e%d-e%d/noip", hi, i, j), rules: []vRule{r}})
+				for hj, h2 := range hosts {
+					r1, r2 := h1, h2
+					r1.Entries = []vEntry{e1}
+					r2.Entries = []vEntry{e2}
+					cs = append(cs, c12Config{name: fmt.Sprintf("sys/two-rules-h%d-e%d-h%d-e%d/noip", hi, i, hj, j), rules: []vRule{r1, r2}})
+				}
+			}
+		}
 	}
 	return cs
 }
@@ -156,8 +183,11 @@ func TestVerifC12(t *testing.T) {
 		reqs := c12Requests(cfg.hasIP)
 		for _, size := range sizes {
 			size := size
+			if strings.HasPrefix(cfg.name, "sys/") && size == 2 {
+				continue
+			}
 			L := seqLen
-			if env.Thorough() && (size <= 2 || !cfg.hasIP) {
+			if env.Thorough() && (size <= 2 || !cfg.hasIP) && !strings.HasPrefix(cfg.name, "sys/") {
 				L = 4
 			}
 			name := fmt.Sprintf("%s/cache%d", cfg.name, size)
